@@ -450,3 +450,5 @@ _quick("C03", "C11_ack", "(also under C11) one ack-required LOCK, 0..2 followers
 _quick("C04", "C04_afterleave", "a shared hold (symbolic Count) and one queued request (symbolic Count) that leaves the queue ungranted — its wait runs out, or it is cancelled; then a newcomer with symbolic Count and Timeout 5: nothing live is queued, so it is granted at once or is not admissible; no admissible request sits at the head of the queue afterwards", ["-witness", "1"], reach=["end", "left"])
 
 CHECKS["C14"]["harnesses"].append(dict(pkg="protocol", name="C14_textunits", bound="the time options of the Redis-style text commands (EX, PX, TX, PTX) with a number of 1..9 symbolic decimal digits through ConvertArgs2Flag: whatever unit the converter picks (ms / s / min), the duration the 16-bit field then stands for is not shorter than the written one and exceeds it by less than one unit; beyond 65535 minutes: rejected or saturated", flags=["-witness", "4", "-solver", "cvc5-int"], reach=["end", "beyond-field"]))
+
+CHECKS["C13"]["harnesses"].append(dict(pkg="protocol", name="C14_idnorm", bound="(also under C14) key / id arguments of text commands: strings of every length 0..64, all byte values, through ConvertArgId2LockId and ConvertString2LockKey: no crash (every run-time check of the converters, encoding/hex included, is an obligation)", flags=["-witness", "1"], reach=["end"]))
